@@ -1,4 +1,42 @@
-(* placeholder until the proofs are integrated *)
-From LLTD Require Import BufProofs.
-Theorem C09_placeholder : True. Proof. exact I. Qed.
-Print Assumptions C09_placeholder.
+(* C09: a topology Reset returns the responder to fresh-start behaviour.
+   Statements only: each theorem restates the full type of a lemma proved in coq/proofs and is closed by
+   `exact`; Print Assumptions beneath.  Regenerate with bin/genprops.py after a lemma changes. *)
+From LLTD Require Import BlockFun PropsMapper.
+
+Theorem C09_normalisation_step :
+  forall (ctx : N) (c : pcfg) (g : gcfg) (mtu : N) (s : ist) (buf : list N),
+  snd (f_step ctx c g mtu s buf) = snd (f_step ctx c g mtu (norm s) buf) /\
+  norm (fst (f_step ctx c g mtu s buf)) = norm (fst (f_step ctx c g mtu (norm s) buf)).
+Proof. exact C09_norm_step. Qed.
+Print Assumptions C09_normalisation_step.
+
+Theorem C09_reset_gives_fresh :
+  forall (ctx : N) (c : pcfg) (g : gcfg) (mtu : N) (s : ist) (buf : list N) (h : hdr),
+  parse_hdr buf = Some h ->
+  h_tos h = tos_discovery ->
+  h_opc h = opcode_reset ->
+  norm (fst (f_step ctx c g mtu s buf)) = fresh /\ snd (f_step ctx c g mtu s buf) = [].
+Proof. exact C09_reset_fresh. Qed.
+Print Assumptions C09_reset_gives_fresh.
+
+Theorem C09_after_reset_like_fresh :
+  forall (ctx : N) (c : pcfg) (g : gcfg) (mtu : N) (s : ist) (hist : list (list N))
+  (rbuf : list N) (h : hdr) (cont : list (list N)),
+  parse_hdr rbuf = Some h ->
+  h_tos h = tos_discovery ->
+  h_opc h = opcode_reset ->
+  snd (f_run ctx c g mtu (fst (f_step ctx c g mtu (fst (f_run ctx c g mtu s hist)) rbuf)) cont) =
+  snd (f_run ctx c g mtu fresh cont).
+Proof. exact C09_history. Qed.
+Print Assumptions C09_after_reset_like_fresh.
+
+Theorem C09_one_run :
+  forall (ctx : N) (c : pcfg) (g : gcfg) (mtu : N) (s : ist) (hist : list (list N))
+  (rbuf : list N) (h : hdr) (cont : list (list N)),
+  parse_hdr rbuf = Some h ->
+  h_tos h = tos_discovery ->
+  h_opc h = opcode_reset ->
+  snd (f_run ctx c g mtu s (hist ++ rbuf :: cont)) =
+  snd (f_run ctx c g mtu s hist) ++ snd (f_run ctx c g mtu fresh cont).
+Proof. exact C09_history_run. Qed.
+Print Assumptions C09_one_run.
